@@ -2,3 +2,4 @@ SPECIFICATION DSpec
 CONSTRAINT Bounded
 PROPERTY OnlyCurrentGrows
 CHECK_DEADLOCK FALSE
+CONSTANT MaxHist = 0
